@@ -138,6 +138,40 @@ theorem inv_setInl {s s' : St} {tid d tag : Nat} {val : List Nat} (h : Inv s)
     · intro tid2 t b hw
       rw [upd_other _ _ _ _ (not_writing_slot h ho hp hw)]
 
+/-- a slot whose owner is not between a counter read and its write is not the slot of any writer -/
+theorem nw_of_notWriting {s : St} (h : Inv s) {x tid2 t b : Nat} (hn : (s.pc (s.owner x)).notWriting = true)
+    (hw : s.pc tid2 = .writing t b) : t ≠ x := by
+  intro e
+  subst e
+  obtain ⟨_, a2, _, _⟩ := h.writing tid2 t b hw
+  rw [a2, hw] at hn
+  simp [Pc.notWriting] at hn
+
+theorem notWriting_of_idle {s : St} {x tid : Nat} (ho : s.owner x = tid) (hp : s.pc tid = .idle) :
+    (s.pc (s.owner x)).notWriting = true := by rw [ho, hp]; rfl
+
+theorem inv_doMove {s : St} {d t : Nat} (h : Inv s) (hd : d < s.n) (ht : t < s.n) (hne : d ≠ t)
+    (hb : (s.slots d).isBlk = false)
+    (hnd : (s.pc (s.owner d)).notWriting = true) (hnt : (s.pc (s.owner t)).notWriting = true) :
+    Inv (doMove s d t) := by
+  apply inv_slots _ h
+  · intro b
+    have c1 := handlesOf_upd s.n s.slots d (s.slots t) b hd
+    have c2 := handlesOf_upd s.n (upd s.slots d (s.slots t)) t .none b ht
+    have e : upd s.slots d (s.slots t) t = s.slots t := upd_other _ _ _ _ (Ne.symm hne)
+    have nb : ¬ s.slots d = .blk b := by intro e; rw [e] at hb; simp [Handle.isBlk] at hb
+    simp only [e, nb, reduceCtorEq, if_false] at c1 c2
+    omega
+  · intro v b hv hv2
+    by_cases e1 : v = t
+    · subst e1; simp at hv2
+    · rw [upd_other _ _ _ _ e1] at hv2
+      by_cases e2 : v = d
+      · subst e2; simp at hv2; exact ⟨t, ht, hv2⟩
+      · rw [upd_other _ _ _ _ e2] at hv2; exact ⟨v, hv, hv2⟩
+  · intro tid2 x b hw
+    rw [upd_other _ _ _ _ (nw_of_notWriting h hnt hw), upd_other _ _ _ _ (nw_of_notWriting h hnd hw)]
+
 theorem inv_move {s s' : St} {tid d t : Nat} (h : Inv s) (hs : astep s tid (.move d t) = some s') : Inv s' := by
   simp only [astep] at hs
   split at hs
@@ -145,23 +179,34 @@ theorem inv_move {s s' : St} {tid d t : Nat} (h : Inv s) (hs : astep s tid (.mov
   case isTrue hc =>
     obtain ⟨hd, ht, hne, ho, ho2, hp, hb⟩ := hc
     cases hs
-    apply inv_slots _ h
-    · intro b
-      have c1 := handlesOf_upd s.n s.slots d (s.slots t) b hd
-      have c2 := handlesOf_upd s.n (upd s.slots d (s.slots t)) t .none b ht
-      have e : upd s.slots d (s.slots t) t = s.slots t := upd_other _ _ _ _ (Ne.symm hne)
-      have nb : ¬ s.slots d = .blk b := by intro e; rw [e] at hb; simp [Handle.isBlk] at hb
-      simp only [e, nb, reduceCtorEq, if_false] at c1 c2
-      omega
-    · intro v b hv hv2
-      by_cases e1 : v = t
-      · subst e1; simp at hv2
-      · rw [upd_other _ _ _ _ e1] at hv2
-        by_cases e2 : v = d
-        · subst e2; simp at hv2; exact ⟨t, ht, hv2⟩
-        · rw [upd_other _ _ _ _ e2] at hv2; exact ⟨v, hv, hv2⟩
-    · intro tid2 x b hw
-      rw [upd_other _ _ _ _ (not_writing_slot h ho2 hp hw), upd_other _ _ _ _ (not_writing_slot h ho hp hw)]
+    exact inv_doMove h hd ht hne hb (notWriting_of_idle ho hp) (notWriting_of_idle ho2 hp)
+
+theorem inv_takeE {s s' : St} {tid t c v : Nat} (h : Inv s) (hs : astep s tid (.takeE t c v) = some s') : Inv s' := by
+  simp only [astep] at hs
+  split at hs
+  case isFalse => cases hs
+  case isTrue hc =>
+    obtain ⟨ht, hx, hne, ho, hp, hb, hnx, _⟩ := hc
+    cases hs
+    exact inv_doMove h ht hx hne hb (notWriting_of_idle ho hp) hnx
+
+theorem inv_putE {s s' : St} {tid t c v : Nat} (h : Inv s) (hs : astep s tid (.putE c t v) = some s') : Inv s' := by
+  simp only [astep] at hs
+  split at hs
+  case isFalse => cases hs
+  case isTrue hc =>
+    obtain ⟨ht, hx, hne, ho, hp, hb, hnx, _⟩ := hc
+    cases hs
+    exact inv_doMove h hx ht (Ne.symm hne) hb hnx (notWriting_of_idle ho hp)
+
+theorem inv_takeF {s s' : St} {tid t c : Nat} (h : Inv s) (hs : astep s tid (.takeF t c) = some s') : Inv s' := by
+  simp only [astep] at hs
+  split at hs
+  case isFalse => cases hs
+  case isTrue hc =>
+    obtain ⟨ht, hx, hne, ho, hp, hb, hnx⟩ := hc
+    cases hs
+    exact inv_doMove h ht hx hne hb (by rw [ho, hp]; rfl) hnx
 
 theorem inv_swap {s s' : St} {tid a c : Nat} (h : Inv s) (hs : astep s tid (.swap a c) = some s') : Inv s' := by
   simp only [astep] at hs
@@ -202,97 +247,112 @@ theorem handles_zero (n : Nat) (slots : Nat → Handle) (b : Nat) (h : ∀ v, v 
 theorem not_isBlk {hd : Handle} (h : hd.isBlk = false) (b : Nat) : ¬ hd = .blk b := by
   intro e; rw [e] at h; simp [Handle.isBlk] at h
 
+theorem inv_doInc {s : St} {tid t src : Nat} (h : Inv s) (ht : t < s.n) (hsrc : src < s.n) (ho : s.owner t = tid)
+    (hp : s.pc tid = .idle) (hb : (s.slots t).isBlk = false)
+    (hns : (s.pc (s.owner src)).notWriting = true) : Inv (doInc s t src) := by
+  simp only [doInc]
+  cases hsl : s.slots src with
+  | none =>
+    simp only []
+    apply inv_slots _ h
+    · intro b; exact handlesOf_upd_nonblk _ _ _ _ _ ht hb rfl
+    · intro v b hv hv2
+      by_cases e : v = t
+      · subst e; simp at hv2
+      · rw [upd_other _ _ _ _ e] at hv2; exact ⟨v, hv, hv2⟩
+    · intro tid2 x b hw
+      rw [upd_other _ _ _ _ (not_writing_slot h ho hp hw)]
+  | inl tag val =>
+    simp only []
+    apply inv_slots _ h
+    · intro b; exact handlesOf_upd_nonblk _ _ _ _ _ ht hb rfl
+    · intro v b hv hv2
+      by_cases e : v = t
+      · subst e; simp at hv2
+      · rw [upd_other _ _ _ _ e] at hv2; exact ⟨v, hv, hv2⟩
+    · intro tid2 x b hw
+      rw [upd_other _ _ _ _ (not_writing_slot h ho hp hw)]
+  | blk b =>
+    obtain ⟨blk, hblk, hpos⟩ := h.ref_pos hsrc hsl
+    simp only [hblk]
+    have hcnt := h.cnt b blk hblk
+    have hnb := not_isBlk hb
+    refine ⟨?_, ?_, ?_, ?_, ?_, ?_, ?_, h.noviol⟩
+    · intro b2 blk2 hb2
+      have hu := handlesOf_upd s.n s.slots t (.blk b) b2 ht
+      simp only [hnb b2, if_false] at hu
+      simp only [handles] at *
+      by_cases e : b2 = b
+      · subst e
+        simp only [upd_same, Option.some.injEq] at hb2
+        subst hb2
+        simp only [if_true] at hu
+        simp only; omega
+      · simp only [upd_other _ _ _ _ e] at hb2
+        have := h.cnt b2 blk2 hb2
+        have ne : ¬ Handle.blk b = Handle.blk b2 := by intro x; injection x with x; exact e x.symm
+        simp only [ne, if_false] at hu
+        simp only [handles] at this
+        omega
+    · intro v b2 hv hv2
+      simp only at hv2 ⊢
+      have hl : ∃ blk, s.heap b2 = some blk := by
+        by_cases e : v = t
+        · subst e; simp only [upd_same] at hv2; injection hv2 with hv2; subst hv2; exact ⟨blk, hblk⟩
+        · rw [upd_other _ _ _ _ e] at hv2; exact h.live v b2 hv hv2
+      by_cases e : b2 = b
+      · subst e; exact ⟨_, upd_same _ _ _⟩
+      · rw [upd_other _ _ _ _ e]; exact hl
+    · intro b2 hb2
+      have := h.fresh b2 hb2
+      have e : b2 ≠ b := by intro e; subst e; rw [hblk] at this; cases this.1
+      simp only [upd_other _ _ _ _ e]; exact this
+    · intro b2 hb2
+      have := h.freedOnce b2 hb2
+      simp only at this ⊢
+      by_cases e : b2 = b
+      · subst e; simp only [upd_same, reduceCtorEq, if_false]; simpa [hblk] using this
+      · simp only [upd_other _ _ _ _ e]; exact this
+    · intro b2 blk2 hb2 hz
+      simp only at hb2 ⊢
+      by_cases e : b2 = b
+      · subst e; simp only [upd_same, Option.some.injEq] at hb2; subst hb2; simp only at hz; omega
+      · rw [upd_other _ _ _ _ e] at hb2; exact h.zero b2 blk2 hb2 hz
+    · intro tid2 b2 hf
+      obtain ⟨⟨blk2, hb2, hz⟩, hu⟩ := h.freeing tid2 b2 hf
+      have e : b2 ≠ b := by intro e; subst e; rw [hblk] at hb2; injection hb2 with hb2; subst hb2; omega
+      refine ⟨⟨blk2, ?_, hz⟩, hu⟩
+      simp only [upd_other _ _ _ _ e]; exact hb2
+    · intro tid2 t2 b2 hw
+      obtain ⟨a1, a2, a3, blk2, a4, a5⟩ := h.writing tid2 t2 b2 hw
+      have ne1 := not_writing_slot h ho hp hw
+      have ne2 := nw_of_notWriting h hns hw
+      refine ⟨a1, a2, ?_, blk2, ?_, a5⟩
+      · simp only [upd_other _ _ _ _ ne1]; exact a3
+      · have e : b2 ≠ b := by
+          intro e; subst e
+          have := sole_handle s.n s.slots t2 src b2 a1 hsrc (Ne.symm ne2) a3 hsl
+          rw [hblk] at a4; injection a4 with a4; subst a4
+          simp only [handles] at hcnt; omega
+        simp only [upd_other _ _ _ _ e]; exact a4
+
 theorem inv_inc {s s' : St} {tid t src : Nat} (h : Inv s) (hs : astep s tid (.inc t src) = some s') : Inv s' := by
   simp only [astep] at hs
   split at hs
   case isFalse => cases hs
   case isTrue hc =>
     obtain ⟨ht, hsrc, ho, ho2, hp, hb⟩ := hc
-    cases hsl : s.slots src with
-    | none =>
-      simp only [hsl] at hs; cases hs
-      apply inv_slots _ h
-      · intro b; exact handlesOf_upd_nonblk _ _ _ _ _ ht hb rfl
-      · intro v b hv hv2
-        by_cases e : v = t
-        · subst e; simp at hv2
-        · rw [upd_other _ _ _ _ e] at hv2; exact ⟨v, hv, hv2⟩
-      · intro tid2 x b hw
-        rw [upd_other _ _ _ _ (not_writing_slot h ho hp hw)]
-    | inl tag val =>
-      simp only [hsl] at hs; cases hs
-      apply inv_slots _ h
-      · intro b; exact handlesOf_upd_nonblk _ _ _ _ _ ht hb rfl
-      · intro v b hv hv2
-        by_cases e : v = t
-        · subst e; simp at hv2
-        · rw [upd_other _ _ _ _ e] at hv2; exact ⟨v, hv, hv2⟩
-      · intro tid2 x b hw
-        rw [upd_other _ _ _ _ (not_writing_slot h ho hp hw)]
-    | blk b =>
-      obtain ⟨blk, hblk, hpos⟩ := h.ref_pos hsrc hsl
-      simp only [hsl, hblk] at hs; cases hs
-      have hcnt := h.cnt b blk hblk
-      have hnb := not_isBlk hb
-      refine ⟨?_, ?_, ?_, ?_, ?_, ?_, ?_, h.noviol⟩
-      · intro b2 blk2 hb2
-        have hu := handlesOf_upd s.n s.slots t (.blk b) b2 ht
-        simp only [hnb b2, if_false] at hu
-        simp only [handles] at *
-        by_cases e : b2 = b
-        · subst e
-          simp only [upd_same, Option.some.injEq] at hb2
-          subst hb2
-          simp only [if_true] at hu
-          simp only; omega
-        · simp only [upd_other _ _ _ _ e] at hb2
-          have := h.cnt b2 blk2 hb2
-          have ne : ¬ Handle.blk b = Handle.blk b2 := by intro x; injection x with x; exact e x.symm
-          simp only [ne, if_false] at hu
-          simp only [handles] at this
-          omega
-      · intro v b2 hv hv2
-        simp only at hv2 ⊢
-        have hl : ∃ blk, s.heap b2 = some blk := by
-          by_cases e : v = t
-          · subst e; simp only [upd_same] at hv2; injection hv2 with hv2; subst hv2; exact ⟨blk, hblk⟩
-          · rw [upd_other _ _ _ _ e] at hv2; exact h.live v b2 hv hv2
-        by_cases e : b2 = b
-        · subst e; exact ⟨_, upd_same _ _ _⟩
-        · rw [upd_other _ _ _ _ e]; exact hl
-      · intro b2 hb2
-        have := h.fresh b2 hb2
-        have e : b2 ≠ b := by intro e; subst e; rw [hblk] at this; cases this.1
-        simp only [upd_other _ _ _ _ e]; exact this
-      · intro b2 hb2
-        have := h.freedOnce b2 hb2
-        simp only at this ⊢
-        by_cases e : b2 = b
-        · subst e; simp only [upd_same, reduceCtorEq, if_false]; simpa [hblk] using this
-        · simp only [upd_other _ _ _ _ e]; exact this
-      · intro b2 blk2 hb2 hz
-        simp only at hb2 ⊢
-        by_cases e : b2 = b
-        · subst e; simp only [upd_same, Option.some.injEq] at hb2; subst hb2; simp only at hz; omega
-        · rw [upd_other _ _ _ _ e] at hb2; exact h.zero b2 blk2 hb2 hz
-      · intro tid2 b2 hf
-        obtain ⟨⟨blk2, hb2, hz⟩, hu⟩ := h.freeing tid2 b2 hf
-        have e : b2 ≠ b := by intro e; subst e; rw [hblk] at hb2; injection hb2 with hb2; subst hb2; omega
-        refine ⟨⟨blk2, ?_, hz⟩, hu⟩
-        simp only [upd_other _ _ _ _ e]; exact hb2
-      · intro tid2 t2 b2 hw
-        obtain ⟨a1, a2, a3, blk2, a4, a5⟩ := h.writing tid2 t2 b2 hw
-        have ne1 := not_writing_slot h ho hp hw
-        have ne2 := not_writing_slot h ho2 hp hw
-        refine ⟨a1, a2, ?_, blk2, ?_, a5⟩
-        · simp only [upd_other _ _ _ _ ne1]; exact a3
-        · have e : b2 ≠ b := by
-            intro e; subst e
-            have := sole_handle s.n s.slots t2 src b2 a1 hsrc (Ne.symm ne2) a3 hsl
-            rw [hblk] at a4; injection a4 with a4; subst a4
-            simp only [handles] at hcnt; omega
-          simp only [upd_other _ _ _ _ e]; exact a4
+    cases hs
+    exact inv_doInc h ht hsrc ho hp hb (notWriting_of_idle ho2 hp)
 
+theorem inv_incE {s s' : St} {tid t c v : Nat} (h : Inv s) (hs : astep s tid (.incE t c v) = some s') : Inv s' := by
+  simp only [astep] at hs
+  split at hs
+  case isFalse => cases hs
+  case isTrue hc =>
+    obtain ⟨ht, hx, ho, hp, hb, hnx, _⟩ := hc
+    cases hs
+    exact inv_doInc h ht hx ho hp hb hnx
 
 theorem inv_dec {s s' : St} {tid t : Nat} (h : Inv s) (hs : astep s tid (.dec t) = some s') : Inv s' := by
   simp only [astep] at hs
@@ -676,6 +736,10 @@ theorem inv_astep {s s' : St} {tid : Nat} {a : Act} (h : Inv s) (hs : astep s ti
   | swap a b => exact inv_swap h hs
   | setInl d tag val => exact inv_setInl h hs
   | give v tid' => exact inv_give h hs
+  | incE t c v => exact inv_incE h hs
+  | takeE t c v => exact inv_takeE h hs
+  | putE c t v => exact inv_putE h hs
+  | takeF t c => exact inv_takeF h hs
 
 theorem inv_reach {n : Nat} {s : St} (h : Reach n s) : Inv s := by
   induction h with
@@ -731,6 +795,17 @@ theorem Inv.freed_le_one {s : St} (h : Inv s) (b : Nat) : s.freed b ≤ 1 := by
   · have := (h.fresh b (by omega)).2; omega
 
 
+theorem doInc_pc (s : St) (t src : Nat) : (doInc s t src).pc = s.pc := by
+  simp only [doInc]; (repeat' split) <;> rfl
+theorem doInc_n (s : St) (t src : Nat) : (doInc s t src).n = s.n := by
+  simp only [doInc]; (repeat' split) <;> rfl
+theorem doMove_pc (s : St) (d t : Nat) : (doMove s d t).pc = s.pc := rfl
+theorem doMove_n (s : St) (d t : Nat) : (doMove s d t).n = s.n := rfl
+theorem doMove_heap (s : St) (d t : Nat) : (doMove s d t).heap = s.heap := rfl
+theorem doInc_heap_none (s : St) (t src : Nat) (h : (s.slots src).isBlk = false) : (doInc s t src).heap = s.heap := by
+  simp only [doInc]
+  cases hs : s.slots src <;> simp_all [Handle.isBlk]
+
 /-! ### an API call that starts with an idle thread ends with an idle thread -/
 
 theorem astep_pc_other {s s' : St} {tid tid2 : Nat} {a : Act} (hs : astep s tid a = some s') (hne : tid2 ≠ tid) :
@@ -738,7 +813,7 @@ theorem astep_pc_other {s s' : St} {tid tid2 : Nat} {a : Act} (hs : astep s tid 
   cases a <;> simp only [astep] at hs <;> (repeat' split at hs) <;>
     first
     | (cases hs; done)
-    | (cases hs; first | rfl | (simp only [upd_other _ _ _ _ hne]))
+    | (cases hs; first | rfl | (simp only [upd_other _ _ _ _ hne]) | (simp only [doInc_pc, doMove_pc]))
 
 /-- every step except `dec` and `readRef` leaves an idle thread idle; `free` and `write` always end idle -/
 def keepsIdle : Act → Bool
@@ -752,6 +827,7 @@ theorem astep_idle {s s' : St} {tid : Nat} {a : Act} (hs : astep s tid a = some 
     first
     | (cases hs; done)
     | (cases hs; exact hp)
+    | (cases hs; simp only [doInc_pc, doMove_pc]; exact hp)
     | (cases hk; done)
 
 theorem astep_free_idle {s s' : St} {tid : Nat} (hs : astep s tid .free = some s') : s'.pc tid = .idle := by
@@ -834,7 +910,7 @@ theorem bal_boxAssign (st : St) (tid d s : Nat) : bal (boxAssign st tid d s) = t
     · exact bal_append (bal_rel _) (by simp [bal])
     · exact bal_rel _
 
-theorem bal_relP (st : St) (d fuel : Nat) : bal (relP st d fuel) = true := by
+theorem bal_relP (st : St) (tid d fuel : Nat) : bal (relP st tid d fuel) = true := by
   induction fuel generalizing d with
   | zero => exact bal_rel _
   | succ f ih =>
@@ -851,9 +927,15 @@ theorem bal_ptrAssign (st : St) (tid d src : Nat) : bal (ptrAssign st tid d src)
   simp only [ptrAssign]
   split
   · split
-    · exact bal_append (bal_append (by simp [bal]) (bal_relP _ _ _)) (by simp [bal])
+    · exact bal_append (bal_append (by simp [bal]) (bal_relP _ _ _ _)) (by simp [bal])
     · simp [bal]
-  · exact bal_relP _ _ _
+  · exact bal_relP _ _ _ _
+
+theorem bal_ptrAssignEmb (st : St) (tid d c v : Nat) : bal (ptrAssignEmb st tid d c v) = true := by
+  simp only [ptrAssignEmb]
+  split
+  · exact bal_append (bal_append (by simp [bal]) (bal_relP _ _ _ _)) (by simp [bal])
+  · simp [bal]
 
 theorem runT_append {tid : Nat} (a b : List Act) {s : St} :
     runT s tid (a ++ b) = (runT s tid a).bind (fun s1 => runT s1 tid b) := by
@@ -922,17 +1004,17 @@ theorem pre_shape (st : St) (tid : Nat) (op : ApiOp) :
   case xClear d => left; exact bal_rel _
   case xSetStr d bytes => right; exact rd _ _ (fun s1 h => by simp only [post, h, if_true]; exact ⟨_, [], rfl, rfl⟩)
   case xElem d bytes => right; exact rd _ _ (fun s1 h => by simp only [post, h, if_true]; exact ⟨_, [], rfl, rfl⟩)
-  case pNew d x => left; exact bal_append (bal_append (by simp [bal]) (bal_relP _ _ _)) (by simp [bal])
+  case pNew d x => left; exact bal_append (bal_append (by simp [bal]) (bal_relP _ _ _ _)) (by simp [bal])
   case pCopy d s =>
     left; split
     · rfl
-    · apply bal_append (bal_relP _ _ _); split <;> simp [bal]
+    · apply bal_append (bal_relP _ _ _ _); split <;> simp [bal]
   case pAssign d s => left; exact bal_ptrAssign _ _ _ _
-  case pClear d => left; exact bal_relP _ _ _
+  case pClear d => left; exact bal_relP _ _ _ _
   case pSwap a b => left; simp [bal]
   case pLink d s => left; split <;> first | exact bal_ptrAssign _ _ _ _ | simp [bal]
-  case pNext d => left; split <;> first | exact bal_ptrAssign _ _ _ _ | simp [bal]
-  case pNextOf d s => left; split <;> first | exact bal_ptrAssign _ _ _ _ | simp [bal]
+  case pNext d => left; split <;> first | exact bal_ptrAssignEmb _ _ _ _ _ | simp [bal]
+  case pNextOf d s => left; split <;> first | exact bal_ptrAssignEmb _ _ _ _ _ | simp [bal]
 
 /-- without a successful counter read the `post` phase pairs every decrement with its release -/
 theorem post_bal (s1 : St) (tid : Nat) (op : ApiOp) (hw : isWriting s1 tid = false) : bal (post s1 tid op) = true := by
@@ -1024,6 +1106,7 @@ theorem astep_n {s s' : St} {tid : Nat} {a : Act} (hs : astep s tid a = some s')
     first
     | (cases hs; done)
     | (cases hs; rfl)
+    | (cases hs; simp only [doInc_n, doMove_n])
 
 theorem reach_n {n : Nat} {s : St} (h : Reach n s) : s.n = n := by
   induction h with
@@ -1045,19 +1128,36 @@ theorem content_stable {s s' : St} {tid : Nat} {a : Act} {v b : Nat} {blk : Bloc
     · subst e; rw [hb] at h0; injection h0 with h0; subst h0
       exact ⟨_, upd_same _ _ _, rfl, rfl, rfl⟩
     · rw [upd_other _ _ _ _ e]; exact ⟨blk, hb, rfl, rfl, rfl⟩
+  have incC : ∀ (t src : Nat), ∃ blk', (doInc s t src).heap b = some blk' ∧ blk'.tag = blk.tag ∧ blk'.val = blk.val ∧ blk'.cap = blk.cap := by
+    intro t src
+    simp only [doInc]
+    cases hsrc : s.slots src with
+    | none => exact same rfl
+    | inl tag val => exact same rfl
+    | blk b0 =>
+      cases h0 : s.heap b0 with
+      | none => simp only [h0]; exact same rfl
+      | some blk0 => simp only [h0]; exact refupd b0 blk0 _ h0
   cases a with
   | inc t src =>
     simp only [astep] at hs
     split at hs
     case isFalse => cases hs
-    case isTrue hc =>
-      cases hsrc : s.slots src with
-      | none => simp only [hsrc] at hs; cases hs; exact same rfl
-      | inl tag val => simp only [hsrc] at hs; cases hs; exact same rfl
-      | blk b0 =>
-        cases h0 : s.heap b0 with
-        | none => simp only [hsrc, h0] at hs; cases hs; exact same rfl
-        | some blk0 => simp only [hsrc, h0] at hs; cases hs; exact refupd b0 blk0 _ h0
+    case isTrue hc => cases hs; exact incC t src
+  | incE t c v =>
+    simp only [astep] at hs
+    split at hs
+    case isFalse => cases hs
+    case isTrue hc => cases hs; exact incC t _
+  | takeE t c v =>
+    simp only [astep] at hs
+    split at hs <;> first | (cases hs; done) | (cases hs; exact same rfl)
+  | putE c t v =>
+    simp only [astep] at hs
+    split at hs <;> first | (cases hs; done) | (cases hs; exact same rfl)
+  | takeF t c =>
+    simp only [astep] at hs
+    split at hs <;> first | (cases hs; done) | (cases hs; exact same rfl)
   | dec t =>
     simp only [astep] at hs
     split at hs
